@@ -37,13 +37,28 @@ def build_type(dt):
     fd = frappy()
     k = dt['k']
     if k == 'double':
+        kw = {'absolute_resolution': dt['abs'] / U}
+        if dt['rel'] >= 0:          # -1: frappy's default relative resolution (1.2e-7)
+            kw['relative_resolution'] = dt['rel'] * 0.125
+        if dt.get('unit'):
+            kw['unit'] = dt['unit']
+        if dt.get('fmt', '%g') != '%g':
+            kw['fmtstr'] = dt['fmt']
         return fd.FloatRange(None if dt['min'] == -NOLIM else dt['min'] / U,
-                             None if dt['max'] == NOLIM else dt['max'] / U,
-                             absolute_resolution=dt['abs'] / U, relative_resolution=dt['rel'] * 0.125)
+                             None if dt['max'] == NOLIM else dt['max'] / U, **kw)
     if k == 'int':
         return fd.IntRange(dt['min'], dt['max'])
     if k == 'scaled':
-        return fd.ScaledInteger(dt['scale'] / U, dt['min'] / U, dt['max'] / U)
+        kw = {}
+        if 'abs' in dt and dt['abs'] != dt['scale']:
+            kw['absolute_resolution'] = dt['abs'] / U
+        if dt.get('rel', -1) >= 0:
+            kw['relative_resolution'] = dt['rel'] * 0.125
+        if dt.get('unit'):
+            kw['unit'] = dt['unit']
+        if dt.get('fmt', '%g') != '%g':
+            kw['fmtstr'] = dt['fmt']
+        return fd.ScaledInteger(dt['scale'] / U, dt['min'] / U, dt['max'] / U, **kw)
     if k == 'bool':
         return fd.BoolType()
     if k == 'enum':
@@ -188,6 +203,7 @@ def str_abs(s, literal=False):
 
 def cand_abs(v, literal=lambda s: False):
     """python candidate value -> abstract candidate (used for randomly generated concrete values)"""
+    frappy()
     from frappy.lib.enum import EnumMember
     if v is None:
         return {'j': 'null'}
@@ -234,6 +250,7 @@ def _same_abs(c, a, conc):
 def _same_number(res, conc):
     if isinstance(conc, bool):
         conc = int(conc)
+    frappy()
     from frappy.lib.enum import EnumMember
     if isinstance(conc, EnumMember):
         conc = conc.value
@@ -258,6 +275,7 @@ def alpha(res, dt, ac, conc, pa=None, pconc=None):
     the previous value at this position (struct members may be filled from it).
     Lossy abstractions (inexact ticks, clipped magnitudes, text, bytes) are only used when the
     result is identical to the candidate; otherwise the value is reported as 'altered'."""
+    frappy()
     from frappy.lib.enum import EnumMember
     if res is None:
         return {'j': 'null'}
@@ -341,6 +359,7 @@ def _self_abs(v):
 
 def outcome_of(fn, dt, ac, conc, pa=None, pconc=None):
     """run fn(); project the result or the exception"""
+    frappy()
     from frappy.errors import RangeError, WrongTypeError
     try:
         res = fn()
@@ -905,3 +924,184 @@ def has_internal(c):
     if c['j'] == 'obj':
         return any(has_internal(e['v']) for e in c['kv'])
     return False
+
+
+# ------------------------------------------------------------ C03: descriptions, copies
+
+def deco(dt, unit='', fmt='%g', dflt=True):
+    """python mirror of Deco in Datatypes.tla: presentation properties on every double / scaled node"""
+    k = dt['k']
+    if k == 'double':
+        return dict(dt, rel=-1 if dflt else dt['rel'], unit=unit, fmt=fmt)
+    if k == 'scaled':
+        return dict(dt, abs=dt['scale'] if dflt else 0, rel=-1 if dflt else 1, unit=unit, fmt=fmt)
+    if k == 'array':
+        return dict(dt, el=deco(dt['el'], unit, fmt, dflt))
+    if k == 'tuple':
+        return dict(dt, els=[deco(e, unit, fmt, dflt) for e in dt['els']])
+    if k == 'struct':
+        return dict(dt, mem=[{'n': m['n'], 't': deco(m['t'], unit, fmt, dflt)} for m in dt['mem']])
+    return dt
+
+
+def info_abs(x, keep_order=False):
+    """a datainfo (JSON) -> abstract JSON: keys sorted, except the members of a struct"""
+    if isinstance(x, bool):
+        return {'j': 'bool', 'b': x}
+    if isinstance(x, int):
+        return int_abs(x)
+    if isinstance(x, float):
+        return num_abs(x)
+    if isinstance(x, str):
+        return {'j': 'text', 's': x}
+    if isinstance(x, list):
+        return {'j': 'list', 'xs': [info_abs(v) for v in x]}
+    if isinstance(x, dict):
+        keys = list(x) if keep_order else sorted(x)
+        return {'j': 'obj', 'kv': [{'k': k, 'v': info_abs(x[k], keep_order=(k == 'members' and x.get('type') == 'struct'))}
+                                   for k in keys]}
+    if x is None:
+        return {'j': 'null'}
+    return {'j': 'pyobject:' + type(x).__name__}
+
+
+def describe(obj):
+    """abstract datainfo of a real datatype (through the JSON text)"""
+    try:
+        return info_abs(json.loads(json.dumps(obj.export_datatype())))
+    except Exception as e:   # noqa
+        return {'j': 'raised', 'e': type(e).__name__}
+
+
+def mutate_everything(obj):
+    """change every mutable part of a datatype tree in place (used on copies only)"""
+    fd = frappy()
+    done = []
+
+    def sp(o, k, v):
+        try:
+            o.setProperty(k, v)
+            done.append(k)
+        except Exception:   # noqa
+            pass
+    if isinstance(obj, (fd.FloatRange, fd.ScaledInteger)):
+        sp(obj, 'unit', 'mutated')
+        sp(obj, 'fmtstr', '%.9f')
+        sp(obj, 'absolute_resolution', 0.5)
+        sp(obj, 'relative_resolution', 0.25)
+        sp(obj, 'min', obj.min - 1)
+        sp(obj, 'max', obj.max + 1)
+        obj.set_main_unit('X')
+    elif isinstance(obj, fd.IntRange):
+        sp(obj, 'min', obj.min - 1)
+        sp(obj, 'max', obj.max + 1)
+    elif isinstance(obj, fd.EnumType):
+        obj.set_name('mutated')
+        done.append('name')
+    elif isinstance(obj, fd.StringType):
+        sp(obj, 'minchars', obj.minchars + 1)
+        sp(obj, 'maxchars', obj.maxchars + 1 if obj.maxchars < 1000 else 7)
+        sp(obj, 'isUTF8', not obj.isUTF8)
+    elif isinstance(obj, fd.BLOBType):
+        sp(obj, 'minbytes', obj.minbytes + 1)
+        sp(obj, 'maxbytes', obj.maxbytes + 1)
+    elif isinstance(obj, fd.ArrayOf):
+        done += mutate_everything(obj.members)
+        fd.DataType.setProperty(obj, 'minlen', obj.minlen + 1)
+        fd.DataType.setProperty(obj, 'maxlen', obj.maxlen + 2)
+    elif isinstance(obj, fd.TupleOf):
+        for m in obj.members:
+            done += mutate_everything(m)
+    elif isinstance(obj, fd.StructOf):
+        for m in obj.members.values():
+            done += mutate_everything(m)
+        try:
+            obj.optional[:] = [] if obj.optional else list(obj.members)
+            obj.members['zz'] = fd.BoolType()
+            done.append('optional/members')
+        except Exception:   # noqa
+            pass
+    return done
+
+
+def equiv_records(dt, probes, extra=None):
+    """C03 records of one (decorated) abstract type: equiv + alias"""
+    base = {'dt': dt}
+    if extra:
+        base.update(extra)
+    obj = build_type(dt)
+    fd = frappy()
+    d1 = describe(obj)
+    info = json.loads(json.dumps(obj.export_datatype())) if d1.get('j') == 'obj' else None
+    objs = {'orig': obj}
+
+    def attempt(name, fn):
+        try:
+            objs[name] = fn()
+            return describe(objs[name])
+        except Exception as e:   # noqa
+            return {'j': 'raised', 'e': type(e).__name__}
+    d2 = attempt('rebuilt', lambda: fd.get_datatype(info))
+    d2x = attempt('rebuiltx', lambda: fd.get_datatype(_with_unknown(info)))
+    d3 = attempt('copy', obj.copy)
+    diff = []
+    trio = [objs.get(n) for n in ('orig', 'rebuilt', 'copy')]
+    if all(o is not None for o in trio):
+        for c in probes:
+            for path in ('wire', 'write'):
+                outs = []
+                for o in trio:
+                    out, _ = run_case(o, dt, c, NONE, path)
+                    outs.append(out)
+                if outs[0] != outs[1] or outs[0] != outs[2]:
+                    diff.append({'c': c, 'path': path, 'orig': outs[0], 'rebuilt': outs[1], 'copy': outs[2]})
+    recs = [dict(base, kind='equiv', d1=d1, d2=d2, d2x=d2x, d3=d3, probes=diff[:5])]
+    if 'copy' in objs:
+        before = describe(obj)
+        try:
+            what = mutate_everything(objs['copy'])
+        except Exception as e:   # noqa
+            what = ['raised ' + type(e).__name__]
+        recs.append(dict(base, kind='alias', before=before, after=describe(obj), what=sorted(set(what))))
+    return recs
+
+
+def _with_unknown(info):
+    """the datainfo with an unknown key at every level (must-ignore policy)"""
+    if isinstance(info, dict) and 'type' in info:
+        res = {k: _with_unknown(v) for k, v in info.items()}
+        if info['type'] == 'struct':
+            res['members'] = {k: _with_unknown(v) for k, v in info['members'].items()}
+        res['x-unknown'] = 1
+        return res
+    if isinstance(info, list):
+        return [_with_unknown(v) for v in info]
+    return info
+
+
+def compat_record(a, b, extra=None):
+    oa, ob = build_type(a), build_type(b)
+    from frappy.errors import BadValueError
+    exc = None
+    try:
+        oa.compatible(ob)
+        passes = True
+    except Exception as e:   # noqa
+        passes = False
+        exc = ('bad-value:' if isinstance(e, BadValueError) else 'OTHER:') + type(e).__name__
+    r = {'kind': 'compat', 'a': a, 'b': b, 'passes': passes, 'exc': exc}
+    if extra:
+        r.update(extra)
+    return r
+
+
+def compat_children(a, b):
+    """element-wise pairs of two containers of the same shape"""
+    if a['k'] == 'array' and b['k'] == 'array':
+        return [(a['el'], b['el'])]
+    if a['k'] == 'tuple' and b['k'] == 'tuple' and len(a['els']) == len(b['els']):
+        return list(zip(a['els'], b['els']))
+    if a['k'] == 'struct' and b['k'] == 'struct':
+        bm = {m['n']: m['t'] for m in b['mem']}
+        return [(m['t'], bm[m['n']]) for m in a['mem'] if m['n'] in bm]
+    return []
